@@ -50,6 +50,16 @@ func (r *CopyReader) Read() error {
 reader:
 	for {
 		typed, _, err := r.ReadTypedMsg()
+		if unwrapped, has := buffer.UnwrapMessageSizeExceeded(err); has {
+			// NOTE: the oversized message has to be discarded before the error
+			// is reported, its body would otherwise be interpreted as the next
+			// messages send by the client.
+			serr := r.Slurp(unwrapped.Size)
+			if serr != nil {
+				return serr
+			}
+		}
+
 		if err != nil {
 			return err
 		}
